@@ -6,8 +6,8 @@ Model of the file writers of the publication server over abstract file systems:
   deltas, the snapshot, `new-notification.xml`, rename it over `notification.xml`, clean up),
 * `RsyncdStore::write` (`src/server/pubd/rsync.rs:72-156`): fill `tmp-<serial>`, rename
   `current` to `old`, rename `tmp-<serial>` to `current`, remove `old`,
-* `commons::file::save` / `create_file`: files are opened *without* truncation, so writing over
-  a longer file leaves its tail in place,
+* `commons::file::save` / `create_file`: files are truncated when opened (fix 4ab08295; the
+  behaviour of the pinned tree, no truncation, is kept in the `…Pinned` definitions),
 * a relying party's RRDP client (strict RFC 8182 application of deltas).
 
 A *plan* is a list of phases; the mutations of an ordered phase happen in list order, those of
@@ -78,8 +78,9 @@ def RrdpFs.set (fs : RrdpFs) (p : Path) (c : FileC) : RrdpFs := (p, c) :: fs.rem
 def RrdpFs.removeTree (fs : RrdpFs) (p : Path) : RrdpFs :=
   fs.filter (fun e => !(p.isPrefixOf e.1))
 
-/-- `create_file` + `write_all`: no truncation. -/
-def writeOver (old : Option FileC) (new : FileC) : FileC :=
+/-- PINNED TREE (before fix 4ab08295), kept as a counter-model only: `create_file` +
+`write_all` without truncation – a shorter file written over a longer one keeps its tail. -/
+def writeOverPinned (old : Option FileC) (new : FileC) : FileC :=
   match old, new with
   | some (.notif o), .notif n => if weightLe o.weight n.weight then new else .garbage o.weight
   | some (.garbage w), .notif n => if weightLe w n.weight then new else .garbage w
@@ -93,8 +94,9 @@ inductive Mut where
   | removeAny (p : Path)
 deriving DecidableEq, Repr, Inhabited
 
+/-- `create_file` truncates (fix 4ab08295): a created file has exactly the new content. -/
 def RrdpFs.apply (fs : RrdpFs) : Mut → RrdpFs
-  | .create p c => fs.set p (writeOver (fs.get? p) c)
+  | .create p c => fs.set p c
   | .rename a b =>
       match fs.get? a with
       | some c => (fs.remove a).set b c
@@ -104,6 +106,13 @@ def RrdpFs.apply (fs : RrdpFs) : Mut → RrdpFs
   | .removeAny p => fs.removeTree p
 
 def RrdpFs.applyAll (fs : RrdpFs) (ms : List Mut) : RrdpFs := ms.foldl RrdpFs.apply fs
+
+/-- PINNED TREE: mutations with non-truncating writes. -/
+def RrdpFs.applyPinned (fs : RrdpFs) : Mut → RrdpFs
+  | .create p c => fs.set p (writeOverPinned (fs.get? p) c)
+  | m => fs.apply m
+
+def RrdpFs.applyAllPinned (fs : RrdpFs) (ms : List Mut) : RrdpFs := ms.foldl RrdpFs.applyPinned fs
 
 def notifPath : Path := [.name "notification.xml"]
 def newNotifPath : Path := [.name "new-notification.xml"]
@@ -293,8 +302,9 @@ def RsyncFs.set (fs : RsyncFs) (n : Top) (t : Tree) : RsyncFs := (n, t) :: fs.re
 def Tree.get? (t : Tree) (p : List String) : Option Raw := t.lookup p
 def Tree.set (t : Tree) (p : List String) (r : Raw) : Tree := (p, r) :: t.filter (fun e => e.1 != p)
 
-/-- `file::save` over whatever is there. -/
-def saveOver (old : Option Raw) (c : Content) : Raw :=
+/-- PINNED TREE (before fix 4ab08295), kept as a counter-model only: `file::save` without
+truncation over whatever is there. -/
+def saveOverPinned (old : Option Raw) (c : Content) : Raw :=
   match old with
   | none => .clean c
   | some (.clean o) => if o.len ≤ c.len || o == c then .clean c else .garbage
@@ -312,7 +322,7 @@ def RsyncFs.apply (fs : RsyncFs) : RMut → Option RsyncFs
   | .mkdir n => some (match fs.get? n with | some _ => fs | none => fs.set n [])
   | .save n rel c =>
       match fs.get? n with
-      | some t => some (fs.set n (t.set rel (saveOver (t.get? rel) c)))
+      | some t => some (fs.set n (t.set rel (.clean c)))
       | none => none
   | .rename a b =>
       match fs.get? a with
@@ -331,6 +341,21 @@ def RsyncFs.applyAll (fs : RsyncFs) : List RMut → RsyncFs × Bool
       | some fs' => RsyncFs.applyAll fs' ms
       | none => (fs, false)
 
+/-- PINNED TREE: saving without truncation. -/
+def RsyncFs.applyPinned (fs : RsyncFs) : RMut → Option RsyncFs
+  | .save n rel c =>
+      match fs.get? n with
+      | some t => some (fs.set n (t.set rel (saveOverPinned (t.get? rel) c)))
+      | none => none
+  | m => fs.apply m
+
+def RsyncFs.applyAllPinned (fs : RsyncFs) : List RMut → RsyncFs × Bool
+  | [] => (fs, true)
+  | m :: ms =>
+      match fs.applyPinned m with
+      | some fs' => RsyncFs.applyAllPinned fs' ms
+      | none => (fs, false)
+
 def Top.name : Top → String
   | .current => "current"
   | .old => "old"
@@ -341,8 +366,20 @@ def Top.name : Top → String
 def rsyncFiles (base : Uri) (objs : Objs) : List (List String × Content) :=
   objs.filterMap (fun p => (relPath base p.1).map (fun rel => (rel, p.2)))
 
-/-- `RsyncdStore::write`. -/
+/-- `RsyncdStore::write` (with fixes 8d070115: a left-over `tmp-<serial>` is removed first, and
+5d860534: a left-over `old` is removed before `current` is renamed onto it). -/
 def rsyncPlan (fs : RsyncFs) (base : Uri) (serial : Nat) (objs : Objs) : List (Bool × List RMut) :=
+  let tmp := Top.tmp serial
+  let hasCurrent := (fs.get? .current).isSome
+  [(true, (if (fs.get? tmp).isSome then [.removeAll tmp] else []) ++ [.mkdir tmp]),
+   (false, (rsyncFiles base objs).map (fun p => .save tmp p.1 p.2)),
+   (true, (if (fs.get? .old).isSome then [.removeAll .old] else []) ++
+            (if hasCurrent then [.rename .current .old] else []) ++ [.rename tmp .current]
+            ++ (if hasCurrent then [.removeAll .old] else []))]
+
+/-- PINNED TREE (before fixes 8d070115 and 5d860534), kept as a counter-model only. -/
+def rsyncPlanPinned (fs : RsyncFs) (base : Uri) (serial : Nat) (objs : Objs) :
+    List (Bool × List RMut) :=
   let tmp := Top.tmp serial
   let hasCurrent := (fs.get? .current).isSome
   let hasOld := hasCurrent || (fs.get? .old).isSome
